@@ -86,9 +86,57 @@ def run_cell(cell: Dict[str, Any]) -> Dict[str, Any]:
         out["draws"] = [{"p": None if d["p"] is None else [round(float(x), 12) for x in d["p"]], "chosen": d["chosen"], "key": d["key"]}
                         for d in rec.draws]
         harness.set_world(None)
+        if cell.get("twin_contraction") and out["raised"] is None:
+            out["clauses"] += _contraction_twin(cell, w, rec, L, W, actions, harness, seed, out["id"])
     except Exception:
         out["error"] = traceback.format_exc(limit=6)
     out["wall"] = round(time.time() - t0, 3)
+    return out
+
+
+def _contraction_twin(cell, w1, rec1, L, W, actions, harness, seed, cid):
+    """C08 neutrality: the same cell is executed again with the contraction setting flipped (same amplitudes, same forced
+    outcomes); the joint physical state and every recorded probability vector must coincide."""
+    rng = np.random.default_rng([seed, int(cid[:8], 16)])
+    C = L.Config()
+    C.set_contraction(True)
+    w2, _ = W.build_world(cell["world"], rng)
+    C.set_contraction(not bool(cell.get("contraction", True)))
+    C.set_seed(seed)
+    script = [d["chosen"] for d in rec1.draws]
+    try:
+        with harness.Recorder(script) as rec2:
+            actions.perform(cell["action"], w2, rng, rec2)
+    except Exception as ex:
+        return [{"prop": "C08", "clause": "same-program-runs-under-both-contraction-settings", "ok": False,
+                 "detail": f"with contraction={not bool(cell.get('contraction', True))}: {type(ex).__name__}: {ex}", "method": "twin"}]
+    finally:
+        C.set_contraction(True)
+    s1, s2 = W.snapshot(w1, check=False), W.snapshot(w2, check=False)
+    out = []
+    try:
+        r1, d1 = W.joint_rho(s1, list(s1.live))
+        r2, d2 = W.joint_rho(s2, list(s2.live))
+        ok = list(s1.live) == list(s2.live)
+        detail = "" if ok else f"live subsystems differ: {s1.live} vs {s2.live}"
+        if ok and d1 != d2:
+            common_d = [max(a, b) for a, b in zip(d1, d2)]
+            r1, r2 = W.pad_rho(r1, d1, common_d), W.pad_rho(r2, d2, common_d)
+        if ok:
+            dev = float(np.max(np.abs(r1 - r2))) if r1 is not None and r2 is not None and r1.shape == r2.shape else float("inf")
+            ok = dev <= 1e-5
+            detail = "" if ok else f"joint states differ by {dev:.3g}"
+        out.append({"prop": "C08", "clause": "joint-state-is-the-same-with-contraction-on-and-off", "ok": bool(ok), "detail": detail, "method": "twin"})
+    except Exception as ex:
+        out.append({"prop": "C08", "clause": "joint-state-is-the-same-with-contraction-on-and-off", "ok": False, "detail": f"unreadable: {ex}", "method": "twin"})
+    p1 = [d["p"] for d in rec1.draws if d["p"] is not None]
+    p2 = [d["p"] for d in rec2.draws if d["p"] is not None]
+    # certain re-draws (p is a delta) may differ in number between representations; compare the non-trivial distributions
+    nt = lambda ps: [p for p in ps if float(np.max(p)) < 1 - 1e-9]
+    a, b = nt(p1), nt(p2)
+    ok = len(a) == len(b) and all(len(x) == len(y) and float(np.max(np.abs(np.array(x) - np.array(y)))) <= 1e-6 for x, y in zip(a, b))
+    out.append({"prop": "C08", "clause": "measurement-distributions-are-the-same-with-contraction-on-and-off", "ok": bool(ok),
+                "detail": "" if ok else f"{[np.round(x, 5).tolist() for x in a][:3]} vs {[np.round(x, 5).tolist() for x in b][:3]}", "method": "twin"})
     return out
 
 
